@@ -63,7 +63,7 @@ Definition b2n (b : bool) : nat := if b then 1 else 0.
 
 (* ---------- measures over frames ---------- *)
 
-Definition admitted1 (p : spc) : nat :=
+Definition inflight1 (p : spc) : nat :=
   match p with S2g | S2 _ | S2w _ _ | S3 | S4 _ => 1 | _ => 0 end.
 Definition sending_ma (a : ma) : nat := match a with MAsend => 1 | _ => 0 end.
 Definition s_sending (p : spc) : nat := match p with SMA _ a => sending_ma a | _ => 0 end.
@@ -79,7 +79,7 @@ Definition d_past2 (p : dpc) : nat := match p with D0 | D1 => 0 | _ => 1 end.
 (* ---------- the numeric invariant (Appendix C: I1..I6 and companions) ---------- *)
 
 Record NInv (s : st) : Prop := {
-  n_cnt : cnt s = sumf admitted1 (ss s);
+  n_cnt : cnt s = sumf inflight1 (ss s);
   n_marker : marker s = true -> closed s = true /\ cnt s = 0;
   n_one : sumf s_sending (ss s) + sumf d_sending (ds s) + markers (hist s) + b2n (mlost s)
           = b2n (marker s);
@@ -122,7 +122,7 @@ Proof.
   intros H I. destruct (do_call_shape _ _ _ _ H) as
     (l1 & l2 & l3 & Es & Ed & Ei & El & F1 & F2 & Ec & Em & En & Est & Eq & Eh & Er & Eml & _).
   destruct I. constructor; rewrite ?Es, ?Ed, ?Ei, ?Ec, ?Em, ?En, ?Est, ?Eh, ?Er, ?Eml, ?sumf_app,
-    ?(sumf_fresh_s admitted1 l1), ?(sumf_fresh_s s_sending l1), ?(sumf_fresh_s s_live l1),
+    ?(sumf_fresh_s inflight1 l1), ?(sumf_fresh_s s_sending l1), ?(sumf_fresh_s s_live l1),
     ?(sumf_fresh_d d_sending l2), ?(sumf_fresh_d d_live l2), ?(sumf_fresh_d d_past l2),
     ?(sumf_fresh_d d_past2 l2), ?Nat.add_0_r, ?app_length; auto; lia.
 Qed.
@@ -168,7 +168,7 @@ Proof.
 Qed.
 
 Ltac sums Hn p' :=
-  pose proof (sumf_upd admitted1 _ _ _ p' Hn);
+  pose proof (sumf_upd inflight1 _ _ _ p' Hn);
   pose proof (sumf_upd s_sending _ _ _ p' Hn);
   pose proof (sumf_upd s_live _ _ _ p' Hn).
 Ltac dsums Hn p' :=
@@ -177,8 +177,8 @@ Ltac dsums Hn p' :=
   pose proof (sumf_upd d_past _ _ _ p' Hn);
   pose proof (sumf_upd d_past2 _ _ _ p' Hn).
 
-Lemma admitted_pos l i p : nth_error l i = Some p -> admitted1 p = 1 -> sumf admitted1 l >= 1.
-Proof. intros H H1. pose proof (sumf_upd admitted1 l i p T0 H). simpl in *. lia. Qed.
+Lemma inflight_pos l i p : nth_error l i = Some p -> inflight1 p = 1 -> sumf inflight1 l >= 1.
+Proof. intros H H1. pose proof (sumf_upd inflight1 l i p T0 H). simpl in *. lia. Qed.
 
 Ltac fin := intros; repeat match goal with
   | H : ?A -> _, H' : ?A |- _ => specialize (H H') end; try lia;
@@ -216,14 +216,14 @@ Proof.
       sums Hn' (S2w k todo); destruct I'; constructor; simpl in *; rewrite ?length_upd; auto; fin.
   - (* S2w *) destruct (child_done s k); auto.
     sums Hn (S2 todo); destruct I; constructor; simpl in *; rewrite ?length_upd; auto; fin.
-  - (* S3 *) pose proof (admitted_pos _ _ _ Hn eq_refl) as Hpos.
+  - (* S3 *) pose proof (inflight_pos _ _ _ Hn eq_refl) as Hpos.
     assert (Hm : marker s = false).
     { destruct (marker s) eqn:E; auto. destruct I as [I1 I2]. destruct (I2 E). lia. }
     assert (HK : markers (hist s) = 0).
     { destruct I as [_ _ I3]. rewrite Hm in I3. simpl in I3. lia. }
     destruct (rx_open s); [sums Hn (S4 ROk)|sums Hn (S4 (RErr i))]; destruct I; constructor; simpl in *;
       rewrite ?length_upd, ?markers_app; simpl; auto; fin; congruence.
-  - (* S4 *) pose proof (admitted_pos _ _ _ Hn eq_refl) as Hpos.
+  - (* S4 *) pose proof (inflight_pos _ _ _ Hn eq_refl) as Hpos.
     assert (Hm : marker s = false).
     { destruct (marker s) eqn:E; auto. destruct I as [I1 I2]. destruct (I2 E). lia. }
     destruct (closed s && (cnt s =? 1)) eqn:E; [sums Hn (SMA r MAload)|sums Hn (SDone r)];
@@ -233,7 +233,7 @@ Proof.
     destruct (ma_step_eff _ _ _ _ _ Hma) as ((Es & Ed & Ei & Ec & Ecl & Est & Erx & _) & Hcase).
     assert (Hn' : nth_error (ss s') i = Some (SMA r a)) by (rewrite Es; exact Hn).
     set (P' := match a' with MAdone _ => SDone r | _ => SMA r a' end).
-    assert (A1 : admitted1 P' = 0) by (destruct a'; reflexivity).
+    assert (A1 : inflight1 P' = 0) by (destruct a'; reflexivity).
     assert (A2 : s_sending P' = sending_ma a') by (destruct a'; reflexivity).
     assert (A3 : s_live P' = live_ma a') by (destruct a'; reflexivity).
     assert (G : NInv (set_spc s' i P')).
@@ -734,7 +734,7 @@ Proof. intros [[_ _ N3 _ _ _ _ _ _] _ _]. destruct (marker s); simpl in N3; lia.
 Lemma marker_after_accepted s : Inv s -> In Marker (hist s) ->
   exists msgs, hist s = msgs ++ [Marker] /\ ~ In Marker msgs /\
     (forall i, result s i = Some ROk -> In (Msg i) msgs) /\
-    sumf admitted1 (ss s) = 0 /\ closed s = true.
+    sumf inflight1 (ss s) = 0 /\ closed s = true.
 Proof.
   intros I H. pose proof (marker_unique _ I) as U. pose proof (in_markers _ H) as L.
   destruct I as [N HI Q]. destruct (n_last _ N ltac:(lia)) as (msgs & E & Hm).
@@ -757,7 +757,7 @@ Lemma marker_eventually_closed s : Inv s -> all_done s = true -> closed s = true
   marker s = true /\ (In Marker (hist s) \/ (mlost s = true /\ rx_open s = false)).
 Proof.
   intros [N _ _] AD Hc. unfold all_done in AD. apply andb_true_iff in AD as [As Ad].
-  assert (Z1 : sumf admitted1 (ss s) = 0) by (apply (forallb_sumf0 s_done); auto; intros []; simpl; auto; discriminate).
+  assert (Z1 : sumf inflight1 (ss s) = 0) by (apply (forallb_sumf0 s_done); auto; intros []; simpl; auto; discriminate).
   assert (Z2 : sumf s_sending (ss s) = 0) by (apply (forallb_sumf0 s_done); auto; intros []; simpl; auto; discriminate).
   assert (Z3 : sumf s_live (ss s) = 0) by (apply (forallb_sumf0 s_done); auto; intros []; simpl; auto; discriminate).
   assert (Z4 : sumf d_sending (ds s) = 0) by (apply (forallb_sumf0 d_done); auto; intros []; simpl; auto; discriminate).
@@ -806,7 +806,7 @@ Qed.
 Lemma drained_once s : Inv s ->
   length (exits s) <= 1 /\
   (forall r, cons s = CExit r \/ cons s = CDead r -> r = RDrained ->
-     In Marker (taken s) /\ handled s = accepted s /\ sumf admitted1 (ss s) = 0) /\
+     In Marker (taken s) /\ handled s = accepted s /\ sumf inflight1 (ss s) = 0) /\
   (forall r, exits s = [r] <-> cons s = CDead r).
 Proof.
   intros I. pose proof I as [N HI [QS QA QE QD]]. split; [|split].
